@@ -129,6 +129,12 @@ func (e *hdEvents) publish(kind, subject string, message *AsyncMessage) error {
 	}
 	e.mu.Lock()
 	defer e.mu.Unlock()
+	if message.Type == "sendoffer" && len(e.subs[subject]) == 0 {
+		// a "sendoffer" for an id that is no session of this server: published for a subject nobody
+		// listens to.  Discarded at once (the model has no publication for it), delivering it later
+		// would hand it to nobody.
+		return nil
+	}
 	e.seq++
 	e.queue = append(e.queue, &hdPub{Seq: e.seq, Kind: kind, Subject: subject, Data: data})
 	return nil
@@ -661,6 +667,13 @@ func (c *hdClient) take() ([][]byte, bool) {
 	m := c.msgs
 	c.msgs = nil
 	return m, c.closed
+}
+
+// nmsgs: number of messages read from the connection and not yet taken
+func (c *hdClient) nmsgs() int {
+	c.mu.Lock()
+	defer c.mu.Unlock()
+	return len(c.msgs)
 }
 
 func (c *hdClient) hasId(id string) bool {
